@@ -32,4 +32,4 @@ require (
 	golang.org/x/sys v0.30.0 // indirect
 )
 
-replace github.com/zitadel/oidc/v3 => /tmp/dbg/repo
+replace github.com/zitadel/oidc/v3 => /repo
